@@ -111,6 +111,7 @@ def build(provider, cfg, sched, start=0, qsize_arg=None):
     real_run, real_join = pipe.run, pipe.join
 
     def run_w():
+        sched.register("prod")
         try:
             real_run()
         except BaseException:
@@ -129,6 +130,7 @@ def build(provider, cfg, sched, start=0, qsize_arg=None):
     outs = []
 
     def consume():
+        sched.register("cons")
         try:
             for o in pred._predict_generator():
                 outs.append({k: (v.tolist() if hasattr(v, "tolist") else v) for k, v in o.items()})
@@ -171,9 +173,11 @@ def forced_replay(provider, g, init, path, start=0):
                 return ("blocked", "after step %d (%s): %s did not reach a hook point" % (stepno, act, "producer" if p is None else "consumer"))
             pk = p if p == "finished" else p[0]
             ck = c if c == "finished" else c[0]
-            if PPC_OF.get(pk) != st["ppc"]:
+            # a thread parked at an observation point (it looked at the queue and was pre-empted) has not reached its next
+            # action yet: its position is compared when the schedule needs it (advance() below)
+            if pk != "observe" and PPC_OF.get(pk) != st["ppc"]:
                 return ("producer_step", "after step %d (%s): producer at %r, spec ppc=%s" % (stepno, act, p, st["ppc"]))
-            if CPC_OF.get(ck) != st["cpc"]:
+            if ck != "observe" and CPC_OF.get(ck) != st["cpc"]:
                 return ("consumer_step", "after step %d (%s): consumer at %r, spec cpc=%s" % (stepno, act, c, st["cpc"]))
             if pk in ("read", "put") and pi_of(pk, p[1]) != st["pi"]:
                 return ("producer_index", "after step %d (%s): producer %r, spec pi=%d" % (stepno, act, p, st["pi"]))
@@ -209,14 +213,32 @@ def forced_replay(provider, g, init, path, start=0):
         bad = compare_all(st0, 0, "Init")
         if bad:
             return bad
+        prev = st0
         for k, (act, sid) in enumerate(path, 1):
             role = "prod" if act.startswith("Prod") else "cons"
+            # the role's next action is due: let it run on from any observation point to its next real hook point, which
+            # must be the action the specification takes now
+            w, spins = sched.where(role), 0
+            while w is not None and w != "finished" and w[0] == "observe" and spins < 200:
+                w, spins = sched.step(role), spins + 1
+            if w is None or spins >= 200:
+                return ("blocked", "step %d (%s): thread did not get from an observation point to a hook point" % (k, act))
+            wk = w if w == "finished" else w[0]
+            want_pc = prev["ppc"] if role == "prod" else prev["cpc"]
+            if (PPC_OF if role == "prod" else CPC_OF).get(wk) != want_pc:
+                return ("producer_step" if role == "prod" else "consumer_step",
+                        "before step %d (%s): %s at %r after acting on an earlier observation, spec pc=%s" % (k, act, role, w, want_pc))
+            prev = g.states[sid]
             if sched.step(role) is None:
                 return ("blocked", "step %d (%s): thread did not complete the granted step within %.1fs" % (k, act, sched.timeout))
             bad = compare_all(g.states[sid], k, act)
             if bad:
                 return bad
         # final state: both threads finished, records carry the right metadata
+        for role in ("prod", "cons"):        # a thread still parked at an observation point runs on to its end
+            w, spins = sched.where(role, 1.0), 0
+            while w is not None and w != "finished" and w[0] == "observe" and spins < 200:
+                w, spins = sched.step(role), spins + 1
         H["cons"].join(3.0)
         if H["cons"].is_alive() or H["pipe"].is_alive():
             return ("liveness", "threads alive after the terminal state")
